@@ -1,6 +1,7 @@
 /-
   One reconcile of the Rollout controller (canary strategy in partition style and blue-green
-  strategy, CloneSet workload), composed with the traffic Manager model.
+  strategy on a CloneSet workload; canary strategy in canary style — `enableExtraWorkloadForCanary` —
+  on an apps/v1 Deployment), composed with the traffic Manager model.
 
   Source:
     pkg/controller/rollout/rollout_controller.go      Reconcile
@@ -13,6 +14,8 @@
     pkg/controller/rollout/rollout_bluegreen.go       the blue-green variants, nextBlueGreenTask
     pkg/controller/rollout/rollout_releaseManager.go  runBatchRelease, removeBatchRelease, finalizingBatchRelease
     pkg/util/rollout_utils.go                         NextBatchIndex, CheckNextBatchIndexWithCorrect
+    api/v1beta1/rollout_types.go                      IsRealPartition, GetRollingStyle
+    pkg/util/controller_finder.go                     getKruiseCloneSet, getDeployment (what `WL` abstracts)
 
   Scope of the model: no rollout-id label on the workload, no TrafficRouting CR annotation,
   steps carry a traffic weight or nothing (header/query matches are C13–C15), one traffic
@@ -94,9 +97,15 @@ structure Rollout where
   succeeded : Option Bool
   term : TermReason
   sub : Option Sub
+  /-- which of the two modelled workloads the rollout refers to: `true` = CloneSet (partition-style canary, blue-green),
+      `false` = apps/v1 Deployment with `canary.enableExtraWorkloadForCanary: true` (canary style; canary strategy only).
+      For a canary strategy this is exactly `v1beta1.IsRealPartition(rollout)`, which only the canary release manager
+      reads; `util.IsRollbackInBatchPolicy` reads the workload kind. -/
+  realPartition : Bool := true
   deriving Repr, DecidableEq, Inhabited
 
-/-- the CloneSet as `ControllerFinder.getKruiseCloneSet` reports it -/
+/-- the workload as `ControllerFinder.getKruiseCloneSet` (partition style, blue-green) or
+    `ControllerFinder.getDeployment` (canary style) reports it -/
 structure WL where
   consistent : Bool
   inProgressAnno : Bool
@@ -105,6 +114,10 @@ structure WL where
   inRollback : Bool
   replicas : Int
   generation : Int
+  /-- `Workload.PodTemplateHash`: for a CloneSet the update revision; for a canary-style Deployment the
+      `pod-template-hash` of the canary Deployment's ReplicaSet — empty while the workload is not in progress,
+      is rolled back, or has no canary Deployment / ReplicaSet yet -/
+  podTemplateHash : String := canaryRev
   deriving Repr, DecidableEq, Inhabited
 
 inductive BRPhase where
@@ -117,7 +130,8 @@ structure BR where
   rolloutID : String
   policy : String               -- "", "Immediate", "WaitResume"
   rollbackAnno : Bool
-  specOther : Bool              -- the remaining spec fields equal what createBatchRelease writes
+  specOther : Bool              -- the remaining spec fields (workloadRef, rollingStyle, enableExtraWorkloadForCanary, failureThreshold,
+                                -- patchPodTemplateMetadata) equal what createBatchRelease writes for this rollout
   deleting : Bool
   phaseCompleted : Bool
   currentBatch : Int
@@ -303,8 +317,8 @@ def upgradeStep (ro : Rollout) (step : Step) (c : Ctx) : RunOut :=
   let c := { c with br := r.2.1, writes := c.writes ++ r.2.2 }
   if r.1 then
     let expected := scaledV step.replicas c.wl.replicas true
-    let st := if ro.style = .canary ∧ expected ≥ c.wl.replicas then StepState.metricsAnalysis else StepState.trafficRouting
-    .ok { c with sub := { c.sub with state := st, podHash := c.wl.canaryRev, lastUpdate := .fresh } } false
+    let st := if ro.style = .canary ∧ expected ≥ c.wl.replicas ∧ ro.realPartition then StepState.metricsAnalysis else StepState.trafficRouting
+    .ok { c with sub := { c.sub with state := st, podHash := c.wl.podTemplateHash, lastUpdate := .fresh } } false
   else .ok c false
 
 /-- result of a retry-style Manager call inside `BeforeStepUpgrade` -/
@@ -324,9 +338,10 @@ def initStep (ro : Rollout) (step : Step) (c3 : Ctx) : RunOut :=
     if ¬ stepHasTraffic step then .ok { c3 with sub := { c3.sub with state := .upgrade } } false
     else
       let expected := scaledV step.replicas c3.wl.replicas true
-      afterRetryCall (if expected ≥ c3.wl.replicas then callTM restoreStableService c3 else some (c3, false, false)) fun c4 =>
+      -- `releaseAllStablePods := expectedReplicas >= replicas && IsRealPartition(rollout)`
+      afterRetryCall (if expected ≥ c3.wl.replicas ∧ ro.realPartition then callTM restoreStableService c3 else some (c3, false, false)) fun c4 =>
         -- (a first step that releases all stable pods keeps the Service restored)
-        afterRetryCall (if c4.sub.curIdx = 1 ∧ ¬ (expected ≥ c3.wl.replicas) ∧ ¬ ro.disableGen then callTM patchStableService c4 else some (c4, false, false)) enterUpgrade
+        afterRetryCall (if c4.sub.curIdx = 1 ∧ ¬ (expected ≥ c3.wl.replicas ∧ ro.realPartition) ∧ ¬ ro.disableGen then callTM patchStableService c4 else some (c4, false, false)) enterUpgrade
   else
     afterRetryCall (if stepHasTraffic step ∧ c3.sub.curIdx = 1 then callTM patchStableService c3 else some (c3, false, false)) enterUpgrade
 
@@ -368,7 +383,7 @@ def syncStep (c0 : Ctx) : Ctx :=
         { c0 with br := some { b with rolloutID := c0.sub.observedRolloutID, hashSame := false }, writes := c0.writes ++ ["patchBRRolloutID"] }
       else c0
     | none => c0
-  { c1 with sub := if c1.sub.podHash = "" then { c1.sub with podHash := c1.wl.canaryRev } else c1.sub }
+  { c1 with sub := if c1.sub.podHash = "" then { c1.sub with podHash := c1.wl.podTemplateHash } else c1.sub }
 
 /-- `runCanary` (both managers) -/
 def runCanary (c0 : Ctx) : RunOut :=
@@ -524,7 +539,9 @@ def inRolling (w : World) (old : Rollout) (ns : Rollout) (s : Sub) (wl : WL) : O
     else if ns.paused then mk (keep { ns with reason := .paused }) false false []
     else .panic
   | some os =>
-  let inBatch := ¬ ns.hasTraffic ∧ ns.rollbackInBatch
+  -- `util.IsRollbackInBatchPolicy`: no traffic routing, workloadRef kind CloneSet (or StatefulSet), annotation "true";
+  -- of the two modelled workloads the canary-style Deployment does not support it
+  let inBatch := ¬ ns.hasTraffic ∧ ns.realPartition ∧ ns.rollbackInBatch
   if wl.inRollback ∧ wl.canaryRev ≠ os.canaryRev ∧ ¬ inBatch then
     mk (keep { ns with reason := .cancelling, sub := some { s with canaryRev := wl.canaryRev } }) false false []
   else if ns.paused then mk (keep { ns with reason := .paused }) false false []
@@ -614,7 +631,7 @@ def csPhase (ro ns : Rollout) (w : WL) : Rollout :=
     else if ns.sub.isNone then
       let n : Int := ns.steps.length
       { ns with sub := some { curIdx := n, nextIdx := nextBatchIndex n n, state := .completed, finStep := .empty,
-                              canaryRev := w.canaryRev, stableRev := w.stableRev, podHash := w.canaryRev, hash := .same,
+                              canaryRev := w.canaryRev, stableRev := w.stableRev, podHash := w.podTemplateHash, hash := .same,
                               observedRolloutID := getRolloutID w, observedGen := w.generation, lastUpdate := .none } }
     else ns
   | .disabled => if ¬ ro.disabled then { ns with phase := .healthy } else ns
